@@ -29,7 +29,7 @@ SPEC = {
         'the 64 MB in K0 is usableByteSlice: an array head claiming n elements decoded as bytes (into []byte or string destinations, map keys, struct field names) allocates min(n, 64 MB) before the first element is read; every other claimed length is capped by decInferLen at max(1024, MaxInitLen) elements',
         'workers run with RLIMIT_AS = 6 GB and debug.SetMaxStack(64 MB); a fatal exit or a stall beyond 20 s + 0.2 ms per input byte is attributed to the input being decoded',
         'the wire models cover Decode(&interface{}) and Decode(&Raw) from []byte for cbor, msgpack, simple, binc (outcome class + NumBytesRead compared as Coq cases); typed destinations, io.Reader transports, the other option flags and json are covered by the oracle only',
-        'msgpack model cases run with MapValueReset=true (the wire model assumption); repeated map keys are outside the cbor/simple/binc models and not compared',
+        'cbor inputs holding a tag 4 / 5 head (decimal fraction, bigfloat: not modelled by Wire/Cbor.v) are not written as model cases', 'msgpack model cases run with MapValueReset=true (the wire model assumption); repeated map keys are outside the cbor/simple/binc models and not compared',
     ],
     'trusted_extra': ['modelled, not verified: the four wire models; decInferLen / usableByteSlice / maxInitLen as transcribed by hand in C02/Alloc.v (the translator does not handle the local const block of decInferLen) and tied by the leaf stream through the hook VerifC02DecInferLen / VerifC02UsableByteSliceLen; GC, real memory, wall time and the recover at the Decode boundary are runtime'],
     'harness_timeout': {'quick': 400, 'thorough': 2400},
